@@ -184,13 +184,14 @@ pub fn family_from(v: &Value) -> MetricFamily {
                 "hist" => {
                     let h = &m["hist"];
                     let mut x = proto::Histogram::default();
-                    x.set_sample_count(h["count"].as_u64().unwrap());
-                    x.set_sample_sum(fparse(&h["sum"]));
+                    // every field is optional: a hand-written collector may leave any of them unset
+                    if let Some(n) = h.get("count").and_then(|x| x.as_u64()) { x.set_sample_count(n); }
+                    if h.get("sum").map(|x| !x.is_null()).unwrap_or(false) { x.set_sample_sum(fparse(&h["sum"])); }
                     let mut bs = vec![];
                     for b in h["b"].as_array().unwrap() {
                         let mut bb = proto::Bucket::default();
-                        bb.set_upper_bound(fparse(&b[0]));
-                        bb.set_cumulative_count(b[1].as_u64().unwrap());
+                        if !b[0].is_null() { bb.set_upper_bound(fparse(&b[0])); }
+                        if let Some(n) = b[1].as_u64() { bb.set_cumulative_count(n); }
                         bs.push(bb);
                     }
                     x.set_bucket(bs);
@@ -199,8 +200,8 @@ pub fn family_from(v: &Value) -> MetricFamily {
                 "summary" => {
                     let su = &m["summary"];
                     let mut x = proto::Summary::default();
-                    x.set_sample_count(su["count"].as_u64().unwrap());
-                    x.set_sample_sum(fparse(&su["sum"]));
+                    if let Some(n) = su.get("count").and_then(|x| x.as_u64()) { x.set_sample_count(n); }
+                    if su.get("sum").map(|x| !x.is_null()).unwrap_or(false) { x.set_sample_sum(fparse(&su["sum"])); }
                     let mut qs = vec![];
                     for q in su["q"].as_array().unwrap() {
                         let mut qq = proto::Quantile::default();
@@ -818,6 +819,19 @@ pub fn call(env: &mut Env, c: &Value) -> Value {
                 }
                 _ => panic!("harness: not a timer"),
             }
+        }
+        "sleep" => {
+            std::thread::sleep(std::time::Duration::from_millis(c["ms"].as_u64().unwrap_or(0)));
+            ok0()
+        }
+        "observe_closure" if c.get("sleep_ms").is_some() => {
+            let ms = c["sleep_ms"].as_u64().unwrap();
+            let r = match env.get(s(c, "of")).unwrap_or_else(|| panic!("harness: no slot")) {
+                Slot::Hist(h) => h.observe_closure_duration(|| { std::thread::sleep(std::time::Duration::from_millis(ms)); 7 }),
+                Slot::LHist(h) => h.observe_closure_duration(|| { std::thread::sleep(std::time::Duration::from_millis(ms)); 7 }),
+                _ => panic!("harness: closure of what"),
+            };
+            okv(json!(r))
         }
         "observe_closure" => {
             let ret = c.get("ret").and_then(|x| x.as_i64()).unwrap_or(7);
